@@ -36,6 +36,8 @@ from aldy.solutions import CNSolution, MajorSolution, SolvedAllele
 PROPERTY = "C04"
 LEVEL = "model_checking"
 FUNCTIONS = [
+    "aldy.minor.estimate_minor (evidence filter: shared with C15)",
+    "aldy.coverage.Coverage.{coverage,total,filtered,basic_filter}",
     "aldy.minor.estimate_minor", "aldy.minor.solve_minor_model",
     "aldy.minor._print_candidates", "aldy.lpinterface.Gurobi.{prod,abssum,solutions}",
     "aldy.coverage.Coverage.{single_copy,__getitem__}",
@@ -44,7 +46,7 @@ FUNCTIONS = [
 ]
 STUBS = [
     "lpinterface.model -> z3-capturing backend (capture mode)",
-    "Coverage.coverage/total -> symbolic counts; Coverage.filtered -> identity (C15)",
+    "observation lists have symbolic lengths (the real Coverage.coverage/total run on them with len/sum/float shadows); Coverage.filtered -> identity (C15)",
     "aldy.minor.max -> If-term max (no fork)",
     "coverage.sam -> object with a concrete .phases table (phase configurations only)",
 ]
@@ -136,6 +138,16 @@ def configs(tier):
                       "major": {"2": 1, "3": 1}, "mode": "noise", "phase": "B"})
             c.append({"gene": "GA", "genome": genome, "cn": ["1", "1", "1"],
                       "major": {"1": 1, "2": 2}, "mode": "noise", "phase": "B"})
+    # the evidence filter of the minor stage where a called allele has no gene copy at a site
+    # (shared with C15): a refined allele can only carry variants with qualifying support
+    import c15
+    for g, cn, mj in c15.MINOR_PARTIAL:
+        c.append({"kind": "minor", "gene": g, "genome": "hg19", "cn": cn, "major": mj})
+    # the clauses "first reported is optimal / all reported lie within the gap / complete"
+    # rest on the solution enumerator: its contract on an uninterpreted model family
+    # (shared with C05)
+    for gap in ("0", "0.1", "sym"):
+        c.append({"kind": "enum", "n": 2, "gap": gap, "limit": None})
     return c
 
 
@@ -328,6 +340,12 @@ def run_config(cfg):
     import aldy.minor as minor
     import aldy.common
 
+    if cfg.get("kind") == "enum":
+        import c05
+        return c05.run_enum(cfg)
+    if cfg.get("kind") == "minor":
+        import c15
+        return c15.run_minor(cfg)
     if cfg["mode"] == "readout":
         return run_readout(cfg)
     res = new_result(cfg)
@@ -1018,6 +1036,12 @@ def replay(o):
     import c02
     import aldy.minor as minor
 
+    if o.get("kind") == "enum":
+        import c05
+        return c05.replay_enum(o)
+    if o.get("kind") == "counts":
+        import c15
+        return c15.replay_counts(o)
     gene = gengene.load(o["gene"], o["genome"])
     counts = c02.concrete_counts(gene, o)
     profile = Profile("replay")
